@@ -24,6 +24,24 @@ use std::io::BufReader;
 use std::rc::Rc;
 use std::time::Duration;
 
+/// A writer that accepts at most `chunk` bytes per `write` call (the `Write` contract allows short
+/// writes; whoever uses `write` where `write_all` is meant loses the rest).
+struct ShortWriter {
+    buf: Vec<u8>,
+    chunk: usize,
+}
+
+impl std::io::Write for ShortWriter {
+    fn write(&mut self, data: &[u8]) -> std::io::Result<usize> {
+        let k = data.len().min(self.chunk.max(1));
+        self.buf.extend_from_slice(&data[..k]);
+        Ok(k)
+    }
+    fn flush(&mut self) -> std::io::Result<()> {
+        Ok(())
+    }
+}
+
 const FILTERS: [(&str, TruthTableEntry); 3] = [("any", TruthTableEntry::Any), ("true", TruthTableEntry::True), ("false", TruthTableEntry::False)];
 
 /// Judge one diagram export. `names[i]` is the display text of universe variable i.
@@ -33,17 +51,22 @@ fn check_bdd_export<S: BDDSymbol>(st: &mut Stats, d: &Rc<BDD<S>>, table: &Tt, na
     // one graph object is rendered one to three times; the LAST rendering is judged (an export
     // is a description of the diagram, whatever was exported before)
     let renderings = 1 + st.evals % 3;
+    let st_evals = st.evals / 3;
     if renderings > 1 {
         st.bump("graph_objects_rendered_repeatedly");
     }
+    if renderings != 2 {
+        st.bump("exports_through_a_short_writing_writer");
+    }
     let text = match guarded(|| {
         let graph = BDDGraph::new(d, filter);
-        let mut buf = Vec::new();
+        // (every other graph is written through a writer that takes 1, 7 or 100 bytes per call)
+        let mut w = ShortWriter { buf: Vec::new(), chunk: if renderings == 2 { usize::MAX } else { [1usize, 7, 100][(st_evals % 3) as usize] } };
         for _ in 0..renderings {
-            buf.clear();
-            graph.render_dot(&mut buf)?;
+            w.buf.clear();
+            graph.render_dot(&mut w)?;
         }
-        Ok::<_, std::io::Error>(buf)
+        Ok::<_, std::io::Error>(w.buf)
     }) {
         Ok(Ok(b)) => String::from_utf8_lossy(&b).to_string(),
         Ok(Err(e)) => {
@@ -211,14 +234,15 @@ fn check_tree_text(st: &mut Stats, text: &str, origin: &str) {
     };
     let tree = ast_of_engine(&pf.bdd);
     let renderings = 1 + st.evals % 3;
+    let tree_evals = st.evals / 3;
     let dot_text = match guarded(|| {
         let graph = SymbolicParseTree::new(&pf.bdd);
-        let mut buf = Vec::new();
+        let mut w = ShortWriter { buf: Vec::new(), chunk: if renderings == 2 { usize::MAX } else { [1usize, 7, 100][(tree_evals % 3) as usize] } };
         for _ in 0..renderings {
-            buf.clear();
-            graph.render_dot(&mut buf)?;
+            w.buf.clear();
+            graph.render_dot(&mut w)?;
         }
-        Ok::<_, std::io::Error>(buf)
+        Ok::<_, std::io::Error>(w.buf)
     }) {
         Ok(Ok(b)) => String::from_utf8_lossy(&b).to_string(),
         Ok(Err(e)) => {
